@@ -522,6 +522,14 @@ def wl_datafile(ctx, idx, rng):
             pred.time_at(ph)
         except Exception:
             pass
+        # the same phase with a caller-supplied starting point anywhere in the file's range (usually another entry than the root's)
+        g = model.entries[int(rng.integers(len(model.entries)))]
+        guess = g.tmid + float(rng.uniform(-g.span / 2.2, g.span / 2.2)) * u.min
+        ctx.count("time_at_guess_other_entry" if g is not e else "time_at_guess_same_entry")
+        try:
+            pred.time_at(ph, guess=guess)
+        except Exception:
+            pass
         mon.expect_time = None
     ctx.bucket("datafile", idx % 4)
     ctx.describe_case({"file": "tests/data/timing.dat", "entries": len(entries)})
@@ -530,7 +538,7 @@ def wl_datafile(ctx, idx, rng):
 
 def workloads(ctx):
     q = ctx.tier == "quick"
-    return [("predict", 2880 if q else 38400, wl_predict), ("time_at", 360 if q else 2400, wl_time_at), ("datafile", 8 if q else 40, wl_datafile)]
+    return [("predict", 2880 if q else 38400, wl_predict), ("time_at", 360 if q else 2400, wl_time_at), ("datafile", 16 if q else 80, wl_datafile)]
 
 
 def setup(ctx):
